@@ -55,7 +55,7 @@ pub fn run(rep: &mut Rep) {
     explore_world(rep, "exhlim", depth, &move || World::boot(WorldCfg { seed, receive_max: Some(1), max_packet: Some(64), ..Default::default() }), &al);
     // many operations and streams pending at the drop
     let ns: Vec<usize> = if rep.quick() { vec![9, 17, 33, 65, 129, 300] } else { vec![7, 8, 9, 15, 16, 17, 31, 32, 33, 63, 64, 65, 127, 128, 129, 255, 256, 257, 1000] };
-    rep.note(&format!("wide: {:?} operations of every kind pending in every phase (unpolled, queued behind a stalled writer, awaiting their acknowledgement, between the QoS 2 phases, acknowledged but unpolled) and a sixth as many streams with 0-40 buffered messages when the context is dropped", ns));
+    rep.note(&format!("wide: {:?} operations of every kind pending in every phase (unpolled, queued behind a stalled writer, awaiting their acknowledgement, between the QoS 2 phases, acknowledged but unpolled) and a sixth as many streams with 0 / 3 / 40 / 63 / 64 / 65 / 130 / 300 buffered messages when the context is dropped", ns));
     let mut widx = 40_000_000u64;
     for (ni, &n) in ns.iter().enumerate() {
         for variant in 0..2u8 {
@@ -75,7 +75,11 @@ pub fn run(rep: &mut Rep) {
                     continue;
                 }
                 let i = w.start(j % 2, k);
-                w.settle();
+                if k == Kind::Sub || k == Kind::Pub2 {
+                    w.settle_check();
+                } else {
+                    w.settle();
+                }
                 if k == Kind::Sub && w.m[i].req_wire.is_some() && subs.len() <= n / 6 {
                     w.deliver_ack(i, 1, 0, 0);
                     w.settle();
@@ -93,9 +97,12 @@ pub fn run(rep: &mut Rep) {
                     w.sim.streams[s].held = j % 2 == 0;
                 }
                 let sid = w.m[sidx].sub_id.unwrap_or(1);
-                for q in 0..(j * 7 % 41) {
+                let backlog = [0usize, 3, 40, 63, 64, 65, 130, 300][(j + ni) % 8];
+                for q in 0..backlog {
                     w.in_publish((q % 2) as u8, 1 + q as u16, false, &[sid], false);
-                    w.settle();
+                    if q % 16 == 15 {
+                        w.settle();
+                    }
                 }
             }
             w.settle_check();
